@@ -272,7 +272,7 @@ META = {
     },
     "C13": {
         "technique": "schedule-owning interleaving injection at critical-section boundaries with a metamorphic serial-order oracle (complete point x interferer matrix), plus randomised order-independent workloads under the Go race detector against the reference model",
-        "text": "For every yield point between critical sections and every interfering operation of the menu, the interferer is executed from inside the outer operation and the final state is compared with both serial orders run on identical copies of the data directory; panics, held mutexes and CheckInvariants are checked in every cell. Many-goroutine workloads with order-independent outcome run under -race with the background jobs free-running and are compared with the reference model. Exploration: absence of races or deadlocks on unexplored schedules is not claimed.",
+        "text": "For every yield point between critical sections and every interfering operation of the menu, the interferer is executed from inside the outer operation and the final state is compared with both serial orders run on identical copies of the data directory; panics, held mutexes and CheckInvariants are checked in every cell. Many-goroutine workloads with order-independent outcome run under -race with the background jobs free-running and are compared with the reference model. Exploration: absence of races or deadlocks on unexplored schedules is not claimed. A further generated check (TestC13RotationAtomicity) delivers a report from inside a rotation wherever the mutex is free there.",
         "note": "'Every control-flow path of every function that locks' is attacked dynamically (this check, plus the TryLock probes after every input in C12 and C11); paths not driven are not judged.",
     },
     "C12": {
